@@ -39,6 +39,7 @@ structure State where
   next : Nat                  -- next internal id
   gen : Nat → Gen
   dels : List Nat             -- Delete calls that hold a handle and have not reached the actor yet
+  tdead : Bool := false       -- the topic of the current generation has been deleted (its map was cleared)
 
 inductive Label where
   | create                    -- manager: check-and-insert under the write lock; spawn the attach task
@@ -49,10 +50,18 @@ inductive Label where
   | actorDelete (i : Nat)     -- the i-th pending Delete reaches its subscription actor (begin_delete)
   | helperSend (g : Nat)      -- helper: enqueue RemoveSubscription
   | helperFinish (g : Nat)    -- actor: FinishDelete → finish_delete (manager entry removed by name)
+  | topicDie                  -- DeleteTopic is handled by the topic actor: its map is cleared
+  | retarget (g : Nat)        -- the new generation was created on another, live topic (decided before its attach is sent)
+  | actorDeleteDirect (i : Nat) -- begin_delete when the topic is gone (`Weak::upgrade` fails): finish at once
 deriving DecidableEq, Repr
 
 def init (repaired : Bool) : State :=
-  { repaired := repaired, mgr := none, topic := none, mbT := [], next := 0, gen := fun _ => {}, dels := [] }
+  { repaired := repaired, mgr := none, topic := none, mbT := [], next := 0, gen := fun _ => {}, dels := [], tdead := false }
+
+/-- Steps of the protocol itself (as opposed to the environment's: a new request, a topic deletion). -/
+def Label.internal : Label → Bool
+  | .create | .deleteStart | .topicDie | .retarget _ => false
+  | _ => true
 
 def upd (f : Nat → Gen) (g : Nat) (v : Gen) : Nat → Gen := fun x => if x = g then v else f x
 
@@ -95,6 +104,19 @@ def step (s : State) : Label → Option State
     if (s.gen g).helper = .removed then
       some { s with mgr := none, gen := upd s.gen g { s.gen g with helper := .done } }
     else none
+  | .topicDie =>
+    if s.tdead then none else some { s with topic := none, tdead := true }
+  | .retarget g =>
+    if s.tdead ∧ s.mgr = some g ∧ (s.gen g).att = .toSend then some { s with topic := none, tdead := false } else none
+  | .actorDeleteDirect i =>
+    match s.dels[i]? with
+    | none => none
+    | some g =>
+      if !s.tdead then none
+      else if s.repaired ∧ (s.gen g).att ≠ .finished then none
+      else if (s.gen g).deleted then some { s with dels := s.dels.eraseIdx i }
+      else some { s with dels := s.dels.eraseIdx i, mgr := none,
+                         gen := upd s.gen g { s.gen g with deleted := true, helper := .done } }
 
 def run : State → List Label → Option State
   | s, [] => some s
